@@ -83,7 +83,7 @@ pub fn gen_sim(g: &mut Gen, n_tasks: usize, clock_regimes: bool) -> Value {
     json!({
         "sched": sched, "sseed": g.u64(), "depth": depth, "workers": workers,
         "clock": {"regime": regime, "seed": g.u64(), "base_ns": base, "default_ns": default_ns, "jitter": jitter, "stall": stall},
-        "max_steps": 600_000u64,
+        "max_steps": 2_000_000u64,
     })
 }
 
